@@ -604,6 +604,7 @@ nodesLoop:
 				panic(tc.errorf(node, "cannot type switch on non-interface value %v (type %s)", ta.Expr,
 					t.StringWithNumber(true)))
 			}
+			guard := t.Type
 			var name string
 			var ti *typeInfo
 			if a := node.Assignment; a.Type == ast.AssignmentDeclaration {
@@ -636,6 +637,9 @@ nodesLoop:
 					}
 					if !t.IsType() {
 						panic(tc.errorf(cas, "%v (type %s) is not a type", expr, t.StringWithNumber(true)))
+					}
+					if t.Type.Kind() != reflect.Interface && !types.Implements(t.Type, guard) {
+						panic(tc.errorf(cas, "impossible type switch case: %v (type %s) cannot have dynamic type %s", ta.Expr, guard, t.Type))
 					}
 					if name != "" && len(cas.Expressions) == 1 {
 						ti := &typeInfo{Type: t.Type, Properties: propertyAddressable}
